@@ -335,6 +335,7 @@ def _r16_1d(res, P, cfgname):
             S = sym.Sym(f)
             cfg = mir.cfg_of(f['mir'])
             ok = False
+            strict_boundary = False
             heads = {h for (_t, h) in cfg.back_edges()}
             other_helpers = ("panic_operate_with_inf", "panic_unlimited_precision", "assert_finite", "assert_limited_precision")
             for i, bb in enumerate(f['mir']['bbs']):
@@ -366,8 +367,16 @@ def _r16_1d(res, P, cfgname):
                 is_test = any(x.endswith(("::sign", "::is_zero", "::le", "::lt", "::cmp", "::partial_cmp", "::is_positive", "::is_negative")) for x in tests)
                 if depends_on_x and is_test and heads and all(cfg.dominates(i, h) for h in heads):
                     ok = True
+                    # ln_1p(-1) = ln(0) is outside the domain too: a comparison with -1 must be
+                    # non-strict (x <= -1 is rejected)
+                    cmp_neg_one = [x for x in tests if x.endswith(("::le", "::lt", "::ge", "::gt"))]
+                    uses_neg_one = any((mir.callee_path(f['mir']['bbs'][c]['t']) or '').endswith("::neg_one") for c in calls)
+                    if uses_neg_one and cmp_neg_one and not any(x.endswith(("::le", "::ge")) for x in cmp_neg_one):
+                        strict_boundary = True
             key = "ln_internal: domain guard (x > 0 resp. x > -1) before the series loop"
-            if ok:
+            if ok and strict_boundary:
+                res.fail("R16.1d", cfgname, key + "|boundary", "the ln_1p domain test compares with -1 strictly: ln_1p(-1) = ln(0) passes the guard and enters the series loop (hang / out of memory instead of the documented panic)", span_loc(f['sp']))
+            elif ok:
                 res.ok("R16.1d", cfgname, key)
             else:
                 res.fail("R16.1d", cfgname, key, "ln/ln_1p have no sign/zero test of their argument with a diverging edge before the series loop: ln(x<=0) hangs or exhausts memory instead of panicking", span_loc(f['sp']))
